@@ -142,7 +142,8 @@ MSave(e) ==
   \* persistence); snapshots taken while something is held are not used (DESIGN.md, C10 limits)
   /\ cnt[e].recvCS = cnt[e].sentRAA
   /\ savedS' = [savedS EXCEPT ![e] = [Snapshot({e}) EXCEPT !.mon = [x \in {e} |-> [mon[x] EXCEPT !.last = uidc[x]]]]]
-  /\ UNCHANGED <<cvars, q, agree, nAdd, nFee, nDisc, hist, ptc, uidc, nCrash>>
+  /\ H([op |-> "save", node |-> e[2] - 1])
+  /\ UNCHANGED <<cvars, q, agree, nAdd, nFee, nDisc, ptc, uidc, nCrash>>
 
 MCrash(e) ==
   /\ nCrash < MaxCrash /\ savedS[e] # <<>>
@@ -150,7 +151,7 @@ MCrash(e) ==
   /\ q' = [d \in DOMAIN q |-> <<>>]
   /\ nCrash' = nCrash + 1
   /\ ptc' = [ptc EXCEPT ![e] = Len(savedS[e].pts[e])]
-  /\ H([op |-> "crash", node |-> e[2] - 1])
+  /\ H([op |-> "crash", node |-> e[2] - 1, mgr |-> "saved", mon |-> "latest"])
   /\ UNCHANGED <<agree, nAdd, nFee, nDisc, uidc, savedS>>
 
 MDone == ((\A d \in DOMAIN q : q[d] = <<>>) \/ (\E e \in EPs : link[e] = "closed")) /\ UNCHANGED mvars
@@ -175,5 +176,5 @@ ViewsAgree == ((\A d \in DOMAIN q : q[d] = <<>>) /\ (\A e \in EPs : link[e] = "u
               => \A e \in EPs : LET a == Commit(e, TRUE)  b == Commit(Peer(e), FALSE) IN
                                     a.nondust = b.nondust /\ a.to_b = b.to_b /\ a.to_c = b.to_c /\ a.feerate = b.feerate
 
-EmitScripts == (Quiet /\ Len(hist) > 6) => PrintT(<<"SCRIPT", ToJson([ops |-> hist])>>)
+EmitScripts == ((Quiet \/ (nCrash > 0 /\ \E e \in EPs : link[e] = "closed")) /\ Len(hist) > 6) => PrintT(<<"SCRIPT", ToJson([ops |-> hist])>>)
 =============================================================================
